@@ -468,6 +468,10 @@ def sec_weights(rep):
     rep.sample({"weights": "cc_weights_even[q]+cc_weights_odd[q] == PDG parton-model coefficient of parton q (W+ hits d-type quarks and ubar-type antiquarks; xF3 antiquark sign -)"})
 
 
+def sec_weights_history(rep):
+    H.weights_frame(rep)
+
+
 # ---------------------------------------------------------------------------------------
 def expected_light_lo(kind, clsname):
     """LO coefficient of the massless coefficient functions: delta(1-z) for the quark
@@ -786,7 +790,7 @@ def run(rep, tier, seed, only=None):
         "gluon/singlet/valence weights specified as flavour averages (charge average), see DESIGN C02",
         "identity tolerance 1e-12 relative (concrete float sub-computations such as np.mean of charges)",
     )
-    secs = [("couplings", sec_couplings), ("ckm", sec_ckm), ("weights", sec_weights), ("lo", sec_lo), ("lo_view", sec_lo_view), ("heavyness", sec_lo_view_heavyness), ("grid", sec_grid_node)]
+    secs = [("couplings", sec_couplings), ("ckm", sec_ckm), ("weights", sec_weights), ("weightsframe", sec_weights_history), ("lo", sec_lo), ("lo_view", sec_lo_view), ("heavyness", sec_lo_view_heavyness), ("grid", sec_grid_node)]
     for nm, f in secs:
         if only and only not in nm:
             continue
